@@ -128,6 +128,82 @@ fn names_of(m: &decode::DModule) -> Result<Option<Names>, String> {
 }
 
 /// C13: names stay attached to the same (renumbered) entity.
+/// Function replacement (the C18 scenario) seen from the name section: functions are identified by signature and
+/// constants (unique markers in generated code); the original keeps its name, the replacement body of an exported
+/// function has none, the body that takes the place of an imported function keeps that function's name (it is the
+/// same function, says `replace_imported_func`).
+fn replace_names(c: &Case, din: &decode::DModule, nin: &Names, rep: &mut Report) {
+    let end = c.end.unwrap();
+    let in_lines: Vec<String> = (0..din.funcs.len()).map(|i| ident::func_line(din, i as u32)).collect();
+    let in_name: HashMap<u32, &String> = nin.funcs.iter().filter(|(i, _)| (*i as usize) < din.funcs.len()).map(|(i, n)| (*i, n)).collect();
+    let mut checked = 0u64;
+    for kind in ["imp", "exp"] {
+        for fi in 0..din.funcs.len() as u32 {
+            let label = format!("{}.{}", kind, fi);
+            let out = match end.get(&format!("out.{}", label)) {
+                Some(o) => o,
+                None => continue,
+            };
+            let blob = [("out.wasm", &out[..])];
+            let dout = match decode::decode(out) {
+                Ok(d) => d,
+                Err(_) => continue, // C18 reports it
+            };
+            let nout = match names_of(&dout) {
+                Ok(Some(n)) => n,
+                Ok(None) => Names::default(),
+                Err(e) => {
+                    rep.violation(c, "C13/output-name-section-malformed", &e, &blob);
+                    continue;
+                }
+            };
+            rep.count("outputs-after-a-function-replacement", 1);
+            let out_lines: Vec<String> = (0..dout.funcs.len()).map(|i| ident::func_line(&dout, i as u32)).collect();
+            let out_name: HashMap<u32, &String> = nout.funcs.iter().map(|(i, n)| (*i, n)).collect();
+            for (i, l) in in_lines.iter().enumerate() {
+                let n = match in_name.get(&(i as u32)) {
+                    Some(n) => *n,
+                    None => continue,
+                };
+                if in_lines.iter().filter(|x| *x == l).count() != 1 {
+                    continue;
+                }
+                let js: Vec<usize> = out_lines.iter().enumerate().filter(|(_, x)| *x == l).map(|(j, _)| j).collect();
+                if js.len() != 1 {
+                    continue;
+                }
+                checked += 1;
+                match out_name.get(&(js[0] as u32)) {
+                    Some(m) if *m == n => {}
+                    Some(m) => rep.violation(c, "C13/function-name-changed-by-a-replacement", &format!("{}: function in#{} named {:?} is out#{} named {:?}", label, i, n, js[0], m), &blob),
+                    None => rep.violation(c, "C13/function-name-dropped-by-a-replacement", &format!("{}: function in#{} named {:?} is still emitted (out#{}) but has lost its name{}", label, i, n, js[0], if i as u32 == fi { " - it is the function whose export was retargeted" } else { "" }), &blob),
+                }
+            }
+            for (j, m) in &nout.funcs {
+                let l = match out_lines.get(*j as usize) {
+                    Some(l) => l,
+                    None => continue,
+                };
+                if in_lines.contains(l) {
+                    continue;
+                }
+                // a function the input does not have: the replacement body
+                let owner = nin.funcs.iter().find(|(_, n)| n == m).map(|(i, _)| *i);
+                if let Some(o) = owner {
+                    if !(kind == "imp" && o == fi) {
+                        rep.violation(c, "C13/function-name-migrated-to-the-replacement", &format!("{}: out#{} is not a function of the input and carries {:?}, the name of in#{}", label, j, m, o), &blob);
+                    }
+                }
+            }
+        }
+    }
+    rep.count("function-names-checked-across-replacements", checked);
+    if checked > 0 {
+        rep.nontrivial(c, "");
+    }
+    rep.held(c);
+}
+
 pub fn c13(c: &Case, rep: &mut Report) {
     let end = c.end.unwrap();
     if end.str("parse") != Some("ok") {
@@ -159,6 +235,10 @@ pub fn c13(c: &Case, rep: &mut Report) {
             return;
         }
     };
+    if c.scenario == "replace" {
+        replace_names(c, &din, &nin, rep);
+        return;
+    }
     // entries that name nothing (index past the last entity of that kind) and subsections walrus ignores
     let stale = nin.funcs.iter().filter(|(i, _)| *i as usize >= din.funcs.len()).count()
         + nin.tables.iter().filter(|(i, _)| *i as usize >= din.tables.len()).count()
